@@ -26,6 +26,9 @@ a file no declared ancestor produces.  The block kinds cover the mechanisms name
            sources (custom_target and generator()) in each language and a generated header they include:
            per-target override (generated sources listed last / first), -Dunity=subprojects in a subproject,
            static library + executable
+  privhdr  generator()-made header in library `core`, included through core.private_dir_include() by a library
+           `wrap` that bundles core (link_whole direct / via declare_dependency(link_whole:) / link_with / into a
+           shared wrap / two levels of link_whole) and by the executable linking wrap
   pair     wayland-scanner style proto.c / proto.h from two DIFFERENT steps, the generated .c includes the
            generated .h: source listed before / after the header, header via declare_dependency(sources:),
            generator()-produced .c including a custom_target header (both orders)
@@ -45,12 +48,12 @@ from pathlib import Path
 
 from . import projgen
 
-KINDS = ('hdr', 'dep', 'gen', 'chain', 'tool', 'link', 'script', 'ctlib', 'run', 'conf', 'subproj', 'pair', 'unity')
+KINDS = ('hdr', 'dep', 'gen', 'chain', 'tool', 'link', 'script', 'ctlib', 'run', 'conf', 'subproj', 'pair', 'unity', 'privhdr')
 # rough number of build statements a block contributes (used to keep graphs explorable)
 WEIGHT = {'hdr': 8, 'dep': 8, 'gen': 11, 'chain': 8, 'tool': 15, 'link': 20, 'script': 7, 'ctlib': 7, 'run': 7,
-          'conf': 7, 'subproj': 7, 'pair': 7, 'unity': 16}
+          'conf': 7, 'subproj': 7, 'pair': 7, 'unity': 16, 'privhdr': 10}
 VARIANTS = {'hdr': 5, 'dep': 3, 'gen': 2, 'chain': 2, 'tool': 3, 'link': 2, 'script': 1, 'ctlib': 1, 'run': 1,
-            'conf': 1, 'subproj': 2, 'pair': 5, 'unity': 4}
+            'conf': 1, 'subproj': 2, 'pair': 5, 'unity': 4, 'privhdr': 5}
 
 GEN_SH = r"""#!/bin/sh
 # usage: gen.sh [-i HEADER]... [-r FILE]... [-x PROG]... INPUT OUTPUT...
@@ -375,6 +378,31 @@ def _block(w: _W, b: T.Dict[str, T.Any]) -> None:
         else:
             UF(f'{p}_main.cpp', f'extern "C" {{\n{cdecl}}}\n{xdecl}int main() {{ return {calls}; }}\n')
             U(f"{p}_exe = executable('{p}_exe', '{p}_main.cpp', {', '.join(srcs)}{over})")
+
+    elif kind == 'privhdr':
+        F(f'{p}_api.in', f'api {p}\n')
+        L(f"{p}_g = generator(gen, output: '@BASENAME@.h', arguments: ['@INPUT@', '@OUTPUT@'])")
+        F(f'{p}_core.c', _fn_c(f'{p}_core', [f'{p}_api.h'], expr=f'{P}_API_VALUE - 1'))
+        L(f"{p}_core = static_library('{p}_core', '{p}_core.c', {p}_g.process('{p}_api.in'))")
+        L(f"{p}_inc = {p}_core.private_dir_include()")
+        F(f'{p}_wrap.c', _fn_c(f'{p}_wrap', [f'{p}_api.h'], calls=[f'{p}_core'], expr=f'{P}_API_VALUE - 1'))
+        F(f'{p}_wrap2.c', _fn_c(f'{p}_wrap2', [f'{p}_api.h'], expr=f'{P}_API_VALUE - 1'))
+        F(f'{p}_main.c', _main_c([f'{p}_api.h'], [f'{p}_wrap', f'{p}_wrap2'], f'{P}_API_VALUE - 1 + {p}_wrap() + {p}_wrap2()'))
+        top = f'{p}_wrap'
+        if v == 0:      # static wrap bundles core directly
+            L(f"{p}_wrap = static_library('{p}_wrap', '{p}_wrap.c', '{p}_wrap2.c', link_whole: {p}_core, include_directories: {p}_inc)")
+        elif v == 1:    # ... through a dependency object
+            L(f"{p}_cdep = declare_dependency(link_whole: {p}_core, include_directories: {p}_inc)")
+            L(f"{p}_wrap = static_library('{p}_wrap', '{p}_wrap.c', '{p}_wrap2.c', dependencies: {p}_cdep)")
+        elif v == 2:    # plain link_with
+            L(f"{p}_wrap = static_library('{p}_wrap', '{p}_wrap.c', '{p}_wrap2.c', link_with: {p}_core, include_directories: {p}_inc)")
+        elif v == 3:    # core bundled into a shared library
+            L(f"{p}_wrap = shared_library('{p}_wrap', '{p}_wrap.c', '{p}_wrap2.c', link_whole: {p}_core, include_directories: {p}_inc)")
+        else:           # two levels: mid bundles core, wrap bundles mid
+            F(f'{p}_mid.c', _fn_c(f'{p}_mid', [f'{p}_api.h'], expr=f'{P}_API_VALUE - 1'))
+            L(f"{p}_mid = static_library('{p}_mid', '{p}_mid.c', link_whole: {p}_core, include_directories: {p}_inc)")
+            L(f"{p}_wrap = static_library('{p}_wrap', '{p}_wrap.c', '{p}_wrap2.c', link_whole: {p}_mid, include_directories: {p}_inc)")
+        L(f"{p}_exe = executable('{p}_exe', '{p}_main.c', link_with: {top}, include_directories: {p}_inc)")
 
     elif kind == 'pair':
         F(f'{p}_c.in', f'c {p}\n')
